@@ -134,6 +134,15 @@ class Discharger:
             return None
         # masked index into a constant table
         i0 = strip_epoch(idx)
+        tab0 = strip_epoch(base)
+        if tab0[0] == "c" and isinstance(tab0[1], (tuple, list, str, bytes)):
+            n_ = len(tab0[1])
+            # bool(..) / a comparison is 0 or 1
+            if n_ >= 2 and ((i0[0] == "call" and i0[1] == "bool") or i0[0] in ("cmp", "not")):
+                return "constant sequence indexed by a truth value (0 or 1)"
+            # an octet taken from a bytes-like value / a popped octet indexes a 256-entry table
+            if n_ >= 256 and (i0[0] in ("iter",) or (i0[0] == "call" and isinstance(i0[1], str) and i0[1].endswith(".pop")) or (i0[0] == "sub" and strip_epoch(i0[1])[0] in ("f0", "p", "slice"))):
+                return "256-entry constant table indexed by an octet"
         if i0[0] == "op" and i0[1] == "BitAnd":
             mask = next((x[1] for x in (i0[2], i0[3]) if x[0] == "c" and isinstance(x[1], int)), None)
             tab = strip_epoch(base)
@@ -261,7 +270,7 @@ def check(src, rep):
             rep.violation("R1", fnq, f"escape:{cls}:{kind}", f"{cls} can leave {entry.split('.', 1)[1]}() on line noise: {text}", src.file(fnq.split('.')[0]), line, witness=f"entry point {entry}")
         else:
             unproven += 1
-            rep.undecide(f"R1 unproven index subscript {text} in {fnq} (line {line}) on the path of {entry}: not discharged by the catalogue")
+            rep.undecide(f"R1 unproven {'index subscript ' if kind != 'assert' else ''}{text} in {fnq} (line {line}) on the path of {entry}: not discharged by the catalogue")
 
     def ctor_ok(site, guards, entry):
         """escapes of a repository constructor called on this path"""
@@ -294,7 +303,9 @@ def check(src, rep):
                     if cls == "reraise":
                         continue
                     if not exc_covered(cls, hs):
-                        report(True, cls, "raise" if cls != "AssertionError" else "assert", e[4] if len(e) > 4 else fnq_default, e[2], f"raise {cls}" if cls != "AssertionError" else "assert not dominated by its condition", entry)
+                        # an assert is a claim of its author; when the facts of the path do not settle it, it is not known to fire either: undecided, not a violation
+                        report(cls != "AssertionError", cls, "raise" if cls != "AssertionError" else "assert", e[4] if len(e) > 4 else fnq_default, e[2],
+                               f"raise {cls}" if cls != "AssertionError" else "(an `assert` whose condition the path does not establish)", entry)
                 if e[0] != "xsite":
                     continue
                 n_sites += 1
